@@ -39,6 +39,10 @@ struct Case {
     /// `dot` right-hand sides / dense inner matrices in other layouts
     #[serde(default)]
     layouts: bool,
+    /// also build the kernel parameters / clustering parameters through every other order of
+    /// setter calls (and with overwritten values) that ends in the same logical parameter set
+    #[serde(default)]
+    builders: bool,
     /// restrict Sparse(k) to these k (None = every 0<k<n); used by the n = 1025 family
     #[serde(default)]
     ks: Option<Vec<usize>>,
@@ -505,6 +509,62 @@ fn run_typed<F: Float>(case: &Case, viols: &mut Vec<Violation>) -> Counters {
             viols.push(Violation::new(format!("{}.dot.incompatible_shape_no_panic", who_o), format!("dot with a {}x1 rhs on a kernel of size {} did not panic (documented panic)", n + 1, n), cj(at.clone())));
         }
 
+        // ---- builder histories of the kernel parameters: every order of {kind, method, nn_algo},
+        // overwritten values (last write wins), defaults relied upon; same kernel required ----
+        if case.builders && n > 0 {
+            let m = || method_of::<F>(case);
+            let other_kind = match kind {
+                KernelType::Dense => KernelType::Sparse(1),
+                KernelType::Sparse(_) => KernelType::Dense,
+            };
+            let other_m: KernelMethod<F> = if case.kernel == "linear" { KernelMethod::Gaussian(F::cast(1.5)) } else { KernelMethod::Linear };
+            let other_nn = if nn_name == "linear" { CommonNearestNeighbour::BallTree } else { CommonNearestNeighbour::LinearSearch };
+            let p0 = || Kernel::<F>::params();
+            let (k, nnv) = (|| kind.clone(), || nn.clone());
+            let mut hist = vec![
+                ("kind_method_nn", p0().kind(k()).method(m()).nn_algo(nnv())),
+                ("kind_nn_method", p0().kind(k()).nn_algo(nnv()).method(m())),
+                ("method_kind_nn", p0().method(m()).kind(k()).nn_algo(nnv())),
+                ("method_nn_kind", p0().method(m()).nn_algo(nnv()).kind(k())),
+                ("nn_kind_method", p0().nn_algo(nnv()).kind(k()).method(m())),
+                ("nn_method_kind", p0().nn_algo(nnv()).method(m()).kind(k())),
+                ("overwrite_all", p0().kind(other_kind.clone()).method(other_m.clone()).nn_algo(other_nn.clone()).nn_algo(nnv()).method(m()).kind(k())),
+                ("set_twice_interleaved", p0().method(m()).kind(other_kind.clone()).nn_algo(nnv()).method(other_m.clone()).kind(k()).method(m())),
+                ("with_nn_then_nn_algo_twice", Kernel::<F>::params_with_nn(other_nn.clone()).kind(k()).nn_algo(other_nn.clone()).method(m()).nn_algo(nnv())),
+            ];
+            // rely on the documented defaults: Dense, Gaussian(0.5), KdTree
+            let mut dflt = p0();
+            if kname != "dense" {
+                dflt = dflt.kind(k());
+            }
+            if !(case.kernel == "gaussian" && case.p1 == 0.5) {
+                dflt = dflt.method(m());
+            }
+            if kname == "sparse" && nn_name != "kdtree" {
+                dflt = dflt.nn_algo(nnv());
+            }
+            hist.push(("defaults_not_set", dflt));
+            for (hname, p) in hist {
+                bump(&mut cnt, "evals", 1);
+                bump(&mut cnt, "builder_history_kernel_builds", 1);
+                let got = guarded(|| p.transform(x.view()));
+                if got.as_ref().ok() != Some(&kernel) {
+                    let mut a = at.clone();
+                    a.as_object_mut().unwrap().insert("op".into(), json!("params_builder_history"));
+                    a.as_object_mut().unwrap().insert("builder_history".into(), json!(hname));
+                    let what = match &got {
+                        Ok(k2) => format!("a different kernel (inner matrix {:?})", image(k2).m),
+                        Err(p) => format!("a panic: {}", p),
+                    };
+                    viols.push(Violation::new(
+                        "kernel.params.builder_order_dependence",
+                        format!("parameters built as `{}` (final values: {} k={} {} {}({},{})) give {}, the canonical params_with_nn(nn).kind(..).method(..) gives inner matrix {:?}", hname, kname, kk, nn_name, case.kernel, case.p1, case.p2, what, img.m),
+                        cj(a),
+                    ));
+                }
+            }
+        }
+
         // ---- memory layouts: same logical records / right-hand side / inner matrix, other strides ----
         if case.layouts && n > 0 {
             for (lname, view) in alt_layouts.iter() {
@@ -669,6 +729,44 @@ fn run_typed<F: Float>(case: &Case, viols: &mut Vec<Violation>) -> Counters {
     cnt
 }
 
+#[derive(Clone, Copy, Debug)]
+enum Crit {
+    N(usize),
+    D(f64),
+}
+
+/// Every other history of setter calls that ends in the same logical parameters (method `link`,
+/// criterion `crit`) as the canonical `default().with_method(m).<criterion>`: the two setters in
+/// the other order, values overwritten (last write wins), and the histories that rely on the
+/// documented defaults (Average linkage, NumClusters(2)).
+fn hc_histories<F: Float>(link: Link, crit: Crit) -> Vec<(&'static str, HierarchicalCluster<F>)> {
+    let m = kodama_method(link);
+    let other_m = if link == Link::Single { Method::Complete } else { Method::Single };
+    let set = |h: HierarchicalCluster<F>, c: Crit| match c {
+        Crit::N(c) => h.num_clusters(c),
+        Crit::D(t) => h.max_distance(F::cast(t)),
+    };
+    let (same_kind_other, cross_kind) = match crit {
+        Crit::N(c) => (Crit::N(c + 1), Crit::D(0.5)),
+        Crit::D(t) => (Crit::D(t + 1.0), Crit::N(1)),
+    };
+    let d = || HierarchicalCluster::<F>::default();
+    let mut v = vec![
+        ("criterion_then_method", set(d(), crit).with_method(m)),
+        ("overwrite_method_and_criterion", set(set(d().with_method(other_m), same_kind_other).with_method(m), crit)),
+        ("other_kind_of_criterion_first", set(set(d(), cross_kind).with_method(m), crit)),
+        ("criterion_then_method_twice", set(d(), crit).with_method(other_m).with_method(m)),
+        ("criterion_twice_around_method", set(set(d(), cross_kind), crit).with_method(m)),
+    ];
+    if link == Link::Average {
+        v.push(("default_method", set(d(), crit)));
+    }
+    if let Crit::N(2) = crit {
+        v.push(("default_criterion", d().with_method(m)));
+    }
+    v
+}
+
 fn kodama_method(l: Link) -> Method {
     match l {
         Link::Single => Method::Single,
@@ -768,6 +866,22 @@ fn cluster_sweep<F: Float>(case: &Case, kernel: &Kernel<F>, img: &Image, at_kern
             let at = json!({"criterion": "num_clusters", "c": c});
             let hc = HierarchicalCluster::<F>::default().with_method(kodama_method(link)).num_clusters(c);
             let Some(lab) = run(hc, at.clone(), viols) else { continue };
+            if case.builders {
+                for (hname, hc2) in hc_histories::<F>(link, Crit::N(c)) {
+                    bump(cnt, "evals", 1);
+                    bump(cnt, "builder_history_clustering_runs", 1);
+                    let got = guarded(|| hc2.transform(kernel.clone()).map(|ds| ds.targets().clone()).ok());
+                    if got != Ok(Some(lab.clone())) {
+                        let mut a = at.clone();
+                        a.as_object_mut().unwrap().insert("builder_history".into(), json!(hname));
+                        viols.push(Violation::new(
+                            "hierarchical.builder_order_dependence",
+                            format!("{} linkage, {:?}: parameters built as `{}` give {:?}, the canonical `default().with_method(m).<criterion>` gives {:?} (same final parameter set)", link.name(), Crit::N(c), hname, got, lab),
+                            cj(a),
+                        ));
+                    }
+                }
+            }
             let canon = linkref::canon_labels(&lab);
             let count = canon.iter().max().map_or(0, |m| m + 1);
             if count != c.min(n) {
@@ -849,6 +963,22 @@ fn cluster_sweep<F: Float>(case: &Case, kernel: &Kernel<F>, img: &Image, at_kern
             let at = json!({"criterion": "distance", "t": t, "t_class": tclass});
             let hc = HierarchicalCluster::<F>::default().with_method(kodama_method(link)).max_distance(F::cast(t));
             let Some(lab) = run(hc, at.clone(), viols) else { continue };
+            if case.builders {
+                for (hname, hc2) in hc_histories::<F>(link, Crit::D(t)) {
+                    bump(cnt, "evals", 1);
+                    bump(cnt, "builder_history_clustering_runs", 1);
+                    let got = guarded(|| hc2.transform(kernel.clone()).map(|ds| ds.targets().clone()).ok());
+                    if got != Ok(Some(lab.clone())) {
+                        let mut a = at.clone();
+                        a.as_object_mut().unwrap().insert("builder_history".into(), json!(hname));
+                        viols.push(Violation::new(
+                            "hierarchical.builder_order_dependence",
+                            format!("{} linkage, {:?}: parameters built as `{}` give {:?}, the canonical `default().with_method(m).<criterion>` gives {:?} (same final parameter set)", link.name(), Crit::D(t), hname, got, lab),
+                            cj(a),
+                        ));
+                    }
+                }
+            }
             let canon = linkref::canon_labels(&lab);
             let count = canon.iter().max().map_or(0, |m| m + 1);
             if count > 1 && count < n {
@@ -1048,6 +1178,8 @@ fn main() {
          reversed-row view of a reversed copy and every-second-row view of a NaN-poisoned parent and must equal the standard-layout kernel exactly (the k-d tree's documented contiguity panic is accepted and counted); \
          dot with the n x 2 right-hand side in the same four layouts; dense kernel with a column-major inner matrix through all reporting methods and the clustering (NumClusters(2), one threshold, 7 linkages). \
          Size threshold: 1025 generic records (41 x 25 grid): dense Linear / Gaussian(2) f64 in quick; thorough adds f32, Gaussian(0.5), Polynomial(1,1.5), Sparse(k in {1,17}) x 3 indices, layouts; clustering there = label counts for c in {1,2,17,n-1,n,n+1} x 7 linkages and single-linkage thresholds vs connected components; PSD check skipped above n = 64. \
+         Builder histories (same subset as the layouts plus all sets of <= 3 records): kernel parameters through all 6 orders of {kind, method, nn_algo}, with every field overwritten (last write wins), and relying on the defaults; \
+         clustering parameters as criterion-then-method, with method / criterion overwritten (same and other kind of criterion), and relying on the default method / criterion - always the same kernel / labels as the canonical order. \
          evaluations = kernels built + clustering runs; non-trivial = kernels on n>=2 records (sparse: exact pattern with at least one absent pair), NumClusters with 1<c<n, thresholds that give 1 < #clusters < n; \
          distinct by construction of the enumerators.",
     );
@@ -1139,7 +1271,7 @@ fn main() {
                     "grid5x5_generic" | "line20_duplicates" | "cube3x3x3_generic" => true,
                     _ => ctx.thorough() && np > 0,
                 };
-                cases.push(Case { family: fam.clone(), points: pts.clone(), dim: *d, float: f.into(), kernel: k.to_string(), p1: *p1, p2: *p2, cluster, layouts, ks: None });
+                cases.push(Case { family: fam.clone(), points: pts.clone(), dim: *d, float: f.into(), kernel: k.to_string(), p1: *p1, p2: *p2, cluster, layouts, builders: layouts || pts.len() <= 3, ks: None });
             }
         }
     }
@@ -1158,7 +1290,7 @@ fn main() {
                     // the clustering sweep sees the same Gaussian matrices as on the unshifted lattice;
                     // quick: f64 Gaussian only, thorough: everything
                     let cluster = ctx.thorough() || (*f == "f64" && *k == "gaussian");
-                    cases.push(Case { family: format!("lattice3x3_affine({:e},{})", off, sp), points: p.clone(), dim: 2, float: f.to_string(), kernel: k.to_string(), p1: *p1, p2: *p2, cluster, layouts: ctx.thorough(), ks: None });
+                    cases.push(Case { family: format!("lattice3x3_affine({:e},{})", off, sp), points: p.clone(), dim: 2, float: f.to_string(), kernel: k.to_string(), p1: *p1, p2: *p2, cluster, layouts: ctx.thorough(), builders: ctx.thorough() || p.len() <= 2, ks: None });
                 }
             }
         }
@@ -1184,6 +1316,7 @@ fn main() {
                     p2: *p2,
                     cluster: true,
                     layouts: ctx.thorough() && f == "f64" && *k == "gaussian" && *p1 == 2.0,
+                    builders: false,
                     ks: Some(if ctx.thorough() { vec![1, 17] } else { vec![] }),
                 });
             }
